@@ -36,7 +36,7 @@ CLAIMED["C05"] = dict(
 CLAIMED["C02"] = dict(
     category="exploration",
     technique="deterministic simulation: seeded entitlement histories, single-stepped real scheduler, certificates decoded from each CA's stored object set after every step, convergence and idempotence rounds",
-    text="Seeded search over entitlement histories in multi-level trees on the real code. The never-over-claims and issued-exactly clauses are instant invariants evaluated after every API operation and every single background task on the decoded object set each CA is about to publish; convergence and idempotence are bounded-liveness checks at the end of each run. Histories are unbounded, so exploration is the honest level.",
+    text="Seeded search over entitlement histories in multi-level trees on the real code. The never-over-claims and issued-exactly clauses are instant invariants evaluated after every API operation and every single background task on the decoded object set each CA is about to publish; convergence and idempotence are bounded-liveness checks at the end of each run. Issuance with a narrowing request limit is exercised by the harness as a remote child (exactly entitlement ∩ limit). Histories are unbounded, so exploration is the honest level.",
     design_ref="DESIGN.md §5 C02",
 )
 CLAIMED["C03"] = dict(
@@ -48,7 +48,7 @@ CLAIMED["C03"] = dict(
 CLAIMED["C04"] = dict(
     category="exploration",
     technique="deterministic simulation: seeded interleavings of key-roll steps with other operations, single-stepped scheduler, invariants on stored and published object sets, bounded liveness",
-    text="Seeded search over orderings of the four roll steps with configuration, entitlement and child operations and syncs; panics and daemon exits are caught unwinds; the one-signing-key invariants are evaluated after every operation and task on the stored object sets and at quiescence on the published tree; completion of every roll within 8 rounds is checked once faults (none in this profile) have stopped.",
+    text="Seeded search over orderings of the four roll steps with configuration, entitlement and child operations and syncs; panics and daemon exits are caught unwinds; the one-signing-key invariants are evaluated after every operation and task on the stored object sets and at quiescence on the published tree; completion of every roll within 8 rounds is checked once the last signing session has taken place. The trust anchor signer goes off-line and comes back as generated operations, so that rolls directly under the trust anchor wait for delayed signer responses while other operations continue.",
     design_ref="DESIGN.md §5 C04",
 )
 CLAIMED["C14"] = dict(
@@ -59,32 +59,32 @@ CLAIMED["C14"] = dict(
 )
 CLAIMED["C06"] = dict(
     category="exploration",
-    technique="deterministic simulation: seeded histories with real snapshot tasks and restarts; three-way comparison live / snapshot+commands / init+all commands for every aggregate type, plus API views and the content log",
-    text="Seeded search over command histories with snapshots and restarts at seed-chosen points on both storage back-ends; every aggregate type is rebuilt from the same stored bytes in two further ways and compared field by field with the live state (two wall-clock fields masked), replays run under catch_unwind.",
+    technique="deterministic simulation: seeded histories with real snapshot tasks and restarts; three-way comparison live / snapshot+commands / init+all commands for every aggregate type, plus API views and the content log; command bursts with one injected failing storage write",
+    text="Seeded search over command histories with snapshots and restarts at seed-chosen points on both storage back-ends; every aggregate type is rebuilt from the same stored bytes in two further ways and compared field by field with the live state (two wall-clock fields masked), replays run under catch_unwind. A second part issues bursts of commands without reads in between, one of them with an injected failing write, and makes the same comparison (what a failed write leaves in the aggregate cache must equal what is stored).",
     design_ref="DESIGN.md §5 C06",
 )
 CLAIMED["C08"] = dict(
     category="fault_enumeration",
-    technique="deterministic simulation with fault injection: per (operation, reached state) pair every storage and file-system mutation is cut by a crash and by an I/O error; restart from the surviving directory; fault-free twin as oracle",
-    text="Seeded choice of (operation, state) pairs; within a pair the cut points (mutations of the key-value store and the file system, recorded by a counting run) are enumerated completely up to 24 and sampled beyond, each as process crash (unwind, restart from disk) and as a failing write. Loading of every entity, audit log / state / object set agreement and validity of the published tree are checked right after the cut, equality with the fault-free twin after the recovery procedure.",
+    technique="deterministic simulation with fault injection: per (operation, reached state) pair every storage and file-system mutation is cut by a crash, by an I/O error, by a full-disk window and by a crash followed by a second crash during start-up or the background work after it; restart from the surviving directory; fault-free twin as oracle",
+    text="Seeded choice of (operation, state) pairs; within a pair the cut points (mutations of the key-value store and the file system, recorded by a counting run) are enumerated completely up to 24 and sampled beyond, each as process crash (unwind, restart from disk), as a failing write, a third of the creating ones as a full-disk window, and half of them as a crash followed by a second crash before the j-th mutation of the start-up path or of the first background round. Loading of every entity, audit log / state / object set agreement and validity of the published tree are checked right after the cut, equality with the fault-free twin after the recovery procedure.",
     design_ref="DESIGN.md §5 C08",
 )
 CLAIMED["C09"] = dict(
     category="fault_enumeration",
-    technique="deterministic simulation with fault injection: crash before every mutation of an operation and its background tasks, restart, run all due tasks, direct follow-up oracle; plus the real TaskQueue against a reference model under seeded operation/restart sequences",
-    text="Crash points are enumerated per (operation, state) pair like for C08 (including every instant at which a task is pending or exactly one is running); after restart the queue is inspected (nothing left running, recurring tasks queued) and the effects of the follow-ups are checked directly (object sets at the repository, served files equal content, no unsent requests, no key in use at a parent that its child dropped). The queue primitive itself is explored against a reference model.",
+    technique="deterministic simulation with fault injection: crash before every mutation of an operation and its background tasks, restart, run all due tasks, direct follow-up oracle; the same cut points as a failing write with the instance staying up and as a double crash; publication runs with a failing task-store write; plus the real TaskQueue against a reference model under seeded operation/restart sequences",
+    text="Crash points are enumerated per (operation, state) pair like for C08 (including every instant at which a task is pending or exactly one is running); after restart the queue is inspected (nothing left running, recurring tasks queued) and the effects of the follow-ups are checked directly (object sets at the repository, served files equal content, no unsent requests, no key in use at a parent that its child dropped). The same cut points are run as a single failing write with the instance staying up (judged after the retry interval) and, for half of them, with a second crash after the restart. The queue primitive itself is explored against a reference model, and publication runs with a failing write of the task store check that an RRDP update queued for an acknowledged publication still takes place.",
     design_ref="DESIGN.md §5 C09",
 )
 CLAIMED["C11"] = dict(
     category="exploration",
     technique="deterministic simulation: simulated RRDP/rsync client population that remembers every serial, evaluated after every operation and every single background task; file-system cut points (crash, I/O error, torn write) in the repository writer",
-    text="Seeded search over publication histories, retention configurations, session resets and restarts; the served files are parsed with the rpki RRDP parser after every step and every remembered serial is replayed through the offered delta chain. The cut-point part enumerates the file-system mutations of an update (crash / error / torn write) and checks the served files right after the cut, after background recovery and after a later publication.",
+    text="Seeded search over publication histories, retention configurations, session resets and restarts; the served files are parsed with the rpki RRDP parser after every step and every remembered serial is replayed through the offered delta chain. The cut-point part enumerates the file-system mutations of an update (crash / error / torn write) and checks the served files right after the cut, after background recovery and after a later publication; in half of the cases a publication arrives before the failed write is retried, so that the files on disk are more than one serial behind when the next write happens, and half of the cut points are also run with a second crash after the restart.",
     design_ref="DESIGN.md §5 C11",
 )
 CLAIMED["C07"] = dict(
     category="exploration",
-    technique="deterministic simulation of real threads: cooperative scheduler (seeded random and PCT policies, recorded decision list) releasing API and reader threads one at a time at Krill's storage/lock switch points; serial witness as oracle",
-    text="Seeded search over interleavings of concurrent commands and reads on the same and different CAs on both back-ends; versions, stored command records and reader observations are checked directly, and linearizability is decided by re-building the same prefix and issuing the same calls one at a time in their commit order (further linear extensions are tried before a mismatch is reported).",
+    technique="deterministic simulation of real threads: cooperative scheduler (seeded random and PCT policies, recorded decision list) releasing API and reader threads one at a time at Krill's storage/lock switch points; serial witness as oracle; sequential command bursts without intermediate reads and one injected failing storage write, audit-log and rebuild oracles",
+    text="Seeded search over interleavings of concurrent commands and reads on the same and different CAs on both back-ends; versions, stored command records and reader observations are checked directly, and linearizability is decided by re-building the same prefix and issuing the same calls one at a time in their commit order (further linear extensions are tried before a mismatch is reported). A second part covers failing writes: bursts of 2-4 commands against one CA without reads in between, one of them with its k-th storage mutation failing; stored command numbers must stay consecutive, the live version must equal their number, refused and acknowledged calls must have their records and the live state must equal the replayed one.",
     design_ref="DESIGN.md §5 C07",
 )
 CLAIMED["C18"] = dict(
@@ -95,14 +95,14 @@ CLAIMED["C18"] = dict(
 )
 CLAIMED["C10"] = dict(
     category="exploration",
-    technique="deterministic simulation: seeded delta sequences from several raw publishers against the real publication server, reference model per publisher, interleaved with RRDP updates by the real scheduler, session resets, restarts and publisher removal",
-    text="Model-based seeded search over delta sequences (valid, invalid at one drawn position, look-alike and nested handles, case variants) with full comparison of every publisher's list reply and details after every request, plus the served RRDP files checked by the simulated client population.",
+    technique="deterministic simulation: seeded delta sequences from several raw publishers against the real publication server, reference model per publisher, interleaved with RRDP updates by the real scheduler, session resets, restarts and publisher removal; a second part with injected failing writes while a delta is processed",
+    text="Model-based seeded search over delta sequences (valid, invalid at one drawn position, look-alike and nested handles, case variants) with full comparison of every publisher's list reply and details after every request, plus the served RRDP files checked by the simulated client population. In the failing-write part a fifth of the deltas meets an I/O error at a seeded mutation of the request: the publisher's content afterwards must be what it was or what the whole delta makes it, and a positive reply means applied.",
     design_ref="DESIGN.md §5 C10",
 )
 CLAIMED["C12"] = dict(
     category="fault_enumeration",
     technique="deterministic simulation of the transport between remote children/publishers (played by the harness with its own identity keys) and the real rfc6492 / rfc8181 entry points: substitution of signing keys and senders, identity replacement, single-bit corruption",
-    text="The key x sender x recipient matrix, the identity-replacement cases and the publication isolation cases are enumerated completely in every run; bit corruption is sampled (320 positions per run, jittered by the seed). State digests before/after every refused request, replies validated under the server's identity certificate.",
+    text="The key x sender x recipient matrix, the identity-replacement cases and the publication isolation cases are enumerated completely in every run; bit corruption is sampled (320 positions per run, jittered by the seed). State digests before/after every refused request, replies validated under the server's identity certificate; issuance with a narrowing request limit, and the list request of a suspended child whose entitlement shrank (what the reply offers and the certificates it carries must lie within the entitlement as it is now).",
     design_ref="DESIGN.md §5 C12",
 )
 CLAIMED["C16"] = dict(
@@ -114,13 +114,13 @@ CLAIMED["C16"] = dict(
 CLAIMED["C15"] = dict(
     category="fault_enumeration",
     technique="deterministic simulation with the harness as courier between trust-anchor proxy and signer: replayed, stale, re-ordered, cross-signed and modified requests and responses around every genuine exchange, several children with concurrent requests",
-    text="The message-level fault kinds (replay, stale nonce, foreign signing key, clear text altered after signing, corrupted signed message, second request while one is open) are all delivered in every round of every run, around genuine exchanges carrying 1-2 child requests; state digests before/after every refused message. Signer re-initialisation is not covered (no such operation exists for the embedded signer).",
+    text="The message-level fault kinds (replay, stale nonce, foreign signing key, clear text altered after signing, corrupted signed message, second request while one is open) are all delivered in every round of every run, around genuine exchanges carrying 1-2 child requests; state digests before/after every refused message; the open request fetched a second time (same nonce, signed anew) must not be processed again; a collected response is gone from the proxy and a further synchronisation delivers nothing. Signer re-initialisation is not covered (no such operation exists for the embedded signer).",
     design_ref="DESIGN.md §5 C15",
 )
 CLAIMED["C19"] = dict(
     category="exploration",
-    technique="deterministic simulation: seeded histories with failing exchanges (child removed, publisher removed, parent removed, CA deleted) and restarts; outcome of each synchronisation attempt derived from the captured log output and compared with status/issues views after every task",
-    text="Seeded search over histories of successful and refused exchanges on the real code; the oracle for 'the most recent attempt failed' is the scheduler's own log line, an independent path from the status store; restart invariance is checked against a runtime loaded afresh from the same storage.",
+    technique="deterministic simulation: seeded histories with failing exchanges (child removed, publisher removed, parent removed, CA deleted) and restarts; outcome of each synchronisation attempt derived from the captured log output and compared with status/issues views after every task; entitlements shown compared with what the parent CA returns for the child; a second part on two instances over the simulated network with lost requests and replies, duplicates, outages and a cut link",
+    text="Seeded search over histories of successful and refused exchanges on the real code; the oracle for 'the most recent attempt failed' is the scheduler's own log line, an independent path from the status store; restart invariance is checked against a runtime loaded afresh from the same storage. After a synchronisation that asked for the entitlements and succeeded the classes (and the summary of all resources) in the status view must equal what the parent CA returns for that child, after a failed or request-only exchange they must be unchanged. The two-instance part makes exchanges fail in the transport as well.",
     design_ref="DESIGN.md §5 C19",
 )
 PENDING = {}
